@@ -1,0 +1,37 @@
+//go:build verif
+
+// Contracts for the deductive verifier in /verif (comment-only file; see /verif/DESIGN.md).
+
+package dns
+
+// A response is only used when it carries one of this lookup's own two transaction IDs (4 for the A query,
+// 6 for the AAAA query); the expiry of the result only ever moves earlier while answers are read, and after
+// an answer with TTL t has been read it is no later than now + t (property C17: cached until the smallest TTL).
+//@ func (*resultBuilder).parseMsg
+//@   requires !isnil(r)
+//@   ensures isnil(result1) ==> result0.ID == 4 || result0.ID == 6
+//@   callsite AResource: !r.expiresAt.After(ttl)
+//@   callsite AResource: iter(r.expiresAt.IsZero()) || !r.expiresAt.After(iter(r.expiresAt))
+//@   callsite AAAAResource: !r.expiresAt.After(ttl)
+//@   callsite AAAAResource: iter(r.expiresAt.IsZero()) || !r.expiresAt.After(iter(r.expiresAt))
+//@   callsite SkipAnswer: !r.expiresAt.After(ttl)
+//@   callsite SkipAnswer: iter(r.expiresAt.IsZero()) || !r.expiresAt.After(iter(r.expiresAt))
+
+// Cache discipline of a lookup: the cached result is returned without asking upstream only while it has not
+// expired (by the clock read for that test); upstream is asked otherwise; a fresh answer replaces the cache
+// entry for that name; an expired entry is only served when asking upstream failed.
+//@ func (*Resolver).Lookup
+//@   requires !isnil(r)
+//@   callsite Check: ok && !result.expiresAt.Before(clocknow())
+//@   callsite sendQueries: !ok || result.expiresAt.Before(clocknow())
+//@   callsite Set: arg1 == name && arg2 == newResult.Result
+//@   callsite Warn: ok
+
+// Asking upstream is not inlined into Lookup (its own code is I/O and goroutines).
+//@ func (*Resolver).sendQueries
+//@   noinline
+
+// Only datagrams whose (unpacked) source is the configured server reach the parser.
+//@ func (*Resolver).sendQueriesUDP
+//@   requires !isnil(r)
+//@   callsite parseMsg: conn.mappedEq(payloadSourceAddrPort, r.serverAddrPort)
